@@ -2,10 +2,14 @@
 Props/C08.lean — field computation never changes objects, even when it fails.
 State model: Model/Level2State.lean; the position of the restore relative to the failing phase
 comes from /repo's source through Gen/Exits.lean.
-Not representable here (observed by the snapshot oracle): caller-owned numpy arrays, the 1-ulp
-re-normalisation of quaternions by as_quat/from_quat (why `restoreBySlicing` matters in floats).
+Second half (section WriteSet): that nothing else on the call path writes into an object, a caller-owned array or a library
+default is decided over the table of mutation sites that translate/writeset.py extracts (Gen/WriteSet.lean) and given a
+meaning on the abstract heap of Model/WriteSet.lean; the points-to classification behind the table is trusted (listed there).
+Not representable here (observed by the snapshot oracle): the 1-ulp re-normalisation of quaternions by as_quat/from_quat
+(why `restoreBySlicing` matters in floats).
 -/
 import MagpyVerif.Model.Level2State
+import MagpyVerif.Gen.WriteSet
 import MagpyVerif.Lemmas.Basic
 namespace MagpyVerif.C08
 open MagpyVerif MagpyVerif.Level2State
@@ -156,5 +160,276 @@ example :
     (runFlags (G := Nat) (V := Nat) (ε := Unit) (β := Unit) (· + 1) true 0 false (fun _ => .error ())
       [⟨[1], [1]⟩, ⟨[1, 2, 3], [1, 2, 3]⟩]).1 = [⟨[1], [1]⟩, ⟨[1, 2, 3], [1, 2, 3]⟩] := by
   decide
+
+/-! ## write-set / alias analysis of the call path (Gen/WriteSet.lean, regenerated by translate/writeset.py)
+
+What the three flags of Gen/Exits leave open — that NOTHING ELSE on the call path writes into an object, into an array of the
+caller or into a library default — is decided here over the regenerated table of mutation sites, and given a meaning on an
+abstract heap.  The link between the table and the heap (a site classified `fresh` writes only into memory allocated
+during the call) is the translator's points-to classification: trusted, conservative, described in Model/WriteSet.lean;
+in the theorems below it is the explicit hypothesis `DescribedBy`. -/
+
+section WriteSet
+open MagpyVerif.WriteSet
+
+/-- **C08 (write set)**: every mutation site of every function on the field-computation call path — the getB/getH/getJ/getM
+wrappers of all interfaces, `_validate_getBH_inputs`, getBH_level2 / getBH_level1 / getBH_dict_level2, get_src_dict,
+tile_group_property, the helpers of utility.py and input_checks.py they call, the property getters and dunders of the object
+classes they trigger, and the core field functions with everything those call — has a root allocated during the call, with
+exactly two explicitly allowed families of writes to pre-existing objects: the temporary padding of `_position` /
+`_orientation` in getBH_level2 (tiling statement and `finally` block, the subject of `level2_preserves_state`) and the lazy
+materialisation of the private style slots in the `style` getter.  Every argument handed to the field function is fresh
+(`consume` sites); no external callee outside the reviewed list receives a pre-existing value; the translator met no
+construct it could not interpret.  Conjoined with the three Exits flags, which are what makes the first family harmless. -/
+theorem call_path_writes_only_fresh :
+    WriteSet.Pure Gen.WriteSet.sites Gen.WriteSet.extCalls Gen.WriteSet.notes = true ∧
+    Gen.Exits.resetInFinally = true ∧ Gen.Exits.unprotectedSitesAfterTiling = 0 ∧ Gen.Exits.restoreBySlicing = false := by
+  decide +kernel
+
+/-- the sites whose root pre-exists the call are exactly these (function, kind, attribute, region), in source order: a new
+write into an object — under an allowed name or not — changes this list -/
+theorem preexisting_roots_are_exactly :
+    (Gen.WriteSet.sites.filter fun s => s.root != .fresh).map (fun s => (s.fn, s.kind, s.attr, s.region)) =
+      [("field_wrap_BH.getBH_level2", .attrAssign, "_position", .tiling),
+       ("field_wrap_BH.getBH_level2", .attrAssign, "_orientation", .tiling),
+       ("field_wrap_BH.getBH_level2", .consumeDeep, "", .other),
+       ("field_wrap_BH.getBH_level2", .attrAssign, "_position", .restore),
+       ("field_wrap_BH.getBH_level2", .attrAssign, "_orientation", .restore),
+       ("class_BaseGeo.BaseGeo.style", .attrAssign, "_style", .lazyStyle),
+       ("class_BaseGeo.BaseGeo.style", .attrAssign, "_style_kwargs", .lazyStyle),
+       ("class_BaseGeo.BaseGeo.style", .methodCall, "update", .lazyStyle)] := by
+  decide +kernel
+
+/-- the `finally` block restores every object the tiling statement pads: both loops run over the same list, which is bound
+once and never mutated, and the `try` follows the tiling statement directly (closes the gap "that the finally-block restores
+EVERY tiled object" of `level2_preserves_state`) -/
+theorem restore_covers_every_tiled_object :
+    Gen.WriteSet.tiledIter = Gen.WriteSet.restoredIter ∧ Gen.WriteSet.tiledIter ≠ "" ∧
+    Gen.WriteSet.iterAssignedOnce = true ∧ Gen.WriteSet.tilingDirectlyBeforeTry = true := by
+  decide
+
+/-- the only core field functions that write into an array they are given are check_chirality (the in-place vertex swap of
+left-handed tetrahedra) and its caller; both calls are `consume` sites of the table with a fresh root -/
+theorem only_chirality_writes_its_arguments :
+    Gen.WriteSet.argWriters = ["field_BH_tetrahedron.BHJM_magnet_tetrahedron", "field_BH_tetrahedron.check_chirality"] ∧
+    (Gen.WriteSet.sites.filter fun s => s.kind == .consume).all (fun s => s.root == .fresh) = true := by
+  decide +kernel
+
+/-- the entry points and the functions the task names are part of the analysed set -/
+theorem entry_points_analysed :
+    ["field_wrap_BH.getB", "field_wrap_BH.getH", "field_wrap_BH.getJ", "field_wrap_BH.getM",
+     "class_BaseExcitations.BaseSource.getB", "class_Sensor.Sensor.getB", "class_Collection.BaseCollection.getB",
+     "class_Collection.BaseCollection._validate_getBH_inputs", "field_wrap_BH.getBH_level2", "field_wrap_BH.getBH_level1",
+     "field_wrap_BH.getBH_dict_level2", "field_wrap_BH.get_src_dict", "field_wrap_BH.tile_group_property",
+     "utility.format_obj_input", "utility.format_src_inputs", "utility.filter_objects", "utility.check_static_sensor_orient",
+     "input_checks.check_format_input_observers", "input_checks.check_dimensions", "input_checks.check_excitations",
+     "input_checks.check_format_pixel_agg", "input_checks.check_getBH_output_type", "class_BaseGeo.BaseGeo.style",
+     "class_Sensor.Sensor.pixel", "class_BaseExcitations.BaseSource.field_func", "class_Collection.BaseCollection.__iter__",
+     "field_BH_tetrahedron.check_chirality", "field_BH_polyline.current_vertices_field",
+     "field_BH_triangularmesh.BHJM_magnet_trimesh"].all (Gen.WriteSet.functions.contains ·) = true := by
+  decide +kernel
+
+/-- the translator's trusted tables are the reviewed ones: what `translate/writeset.py` treats as returning new memory
+(`freshDeep`: no references to pre-existing objects inside; `freshShallow`: a new container sharing the elements), as possibly
+returning its argument or a view (`alias`; everything not listed anywhere is treated like this), as writing in place
+(`outFuncs`, `mutatingMethods`), which call hands its arguments to code that writes into them (`consumers`) and which of its
+keyword names are exempt.  Moving a name from one list to another (say np.asarray into `freshDeep`) breaks this theorem. -/
+theorem translator_tables_are_the_reviewed_ones :
+    Gen.WriteSet.freshDeep =
+      ["R.from_euler", "R.from_matrix", "R.from_quat", "R.from_rotvec", "R.identity", "Rotation.from_quat", "abs", "all", "any",
+       "bool", "callable", "chr", "divmod", "ellipe", "ellipeinc", "ellipk", "ellipkinc", "float",
+       "format", "hasattr", "hash", "id", "inspect.signature", "int", "isinstance", "issubclass", "len",
+       "log10", "norm", "np.abs", "np.all", "np.allclose", "np.any", "np.arange", "np.arccos", "np.arccosh",
+       "np.arcsin", "np.arcsinh", "np.arctan", "np.arctan2", "np.arctanh", "np.argmax", "np.argmin", "np.argsort", "np.array",
+       "np.array_equal", "np.ceil", "np.cos", "np.cosh", "np.count_nonzero", "np.cross", "np.cumsum", "np.deg2rad", "np.dot",
+       "np.einsum", "np.empty", "np.empty_like", "np.errstate", "np.exp", "np.eye", "np.fabs", "np.floor", "np.full",
+       "np.full_like", "np.hypot", "np.in1d", "np.invert", "np.isclose", "np.isin", "np.isnan", "np.isscalar", "np.linalg.det",
+       "np.linalg.inv", "np.linalg.norm", "np.linspace", "np.log", "np.logical_and", "np.logical_not", "np.logical_or", "np.matmul", "np.max",
+       "np.maximum", "np.mean", "np.min", "np.minimum", "np.mod", "np.ndim", "np.nonzero", "np.ones", "np.ones_like",
+       "np.power", "np.prod", "np.ptp", "np.rad2deg", "np.shape", "np.sign", "np.sin", "np.sinh", "np.sort",
+       "np.sqrt", "np.sum", "np.tan", "np.tanh", "np.unique", "np.where", "np.zeros", "np.zeros_like", "ord",
+       "pow", "print", "range", "repr", "round", "signature", "slice", "str", "sum",
+       "type", "warnings.warn"] ∧
+    Gen.WriteSet.freshShallow =
+      ["dict", "enumerate", "filter", "frozenset", "list", "map", "np.concatenate", "np.copy", "np.delete",
+       "np.hstack", "np.pad", "np.repeat", "np.stack", "np.tile", "np.vstack", "product", "reversed", "set",
+       "sorted", "tuple", "zip"] ∧
+    Gen.WriteSet.alias =
+      ["getattr", "iter", "max", "min", "next", "np.asanyarray", "np.asarray", "np.atleast_1d", "np.atleast_2d",
+       "np.broadcast_to", "np.expand_dims", "np.moveaxis", "np.ravel", "np.reshape", "np.split", "np.squeeze", "np.swapaxes", "np.transpose",
+       "vars"] ∧
+    Gen.WriteSet.outFuncs =
+      ["delattr", "np.add.at", "np.copyto", "np.fill_diagonal", "np.place", "np.put", "np.put_along_axis", "np.putmask", "np.random.shuffle",
+       "random.shuffle", "setattr"] ∧
+    Gen.WriteSet.mutatingMethods =
+      ["__delitem__", "__iadd__", "__setattr__", "__setitem__", "add", "append", "byteswap", "clear", "difference_update",
+       "discard", "extend", "fill", "insert", "intersection_update", "itemset", "partition", "pop", "popitem",
+       "put", "remove", "resize", "reverse", "setdefault", "setfield", "setflags", "sort", "symmetric_difference_update",
+       "update"] ∧
+    Gen.WriteSet.freshDeepMethods =
+      ["all", "any", "apply", "as_euler", "as_matrix", "as_quat", "as_rotvec", "astype", "count",
+       "cumsum", "dot", "endswith", "flatten", "format", "group", "index", "inv", "isdigit",
+       "join", "lower", "lstrip", "magnitude", "mean", "prod", "replace", "rstrip", "split",
+       "startswith", "std", "strip", "sum", "tolist", "upper"] ∧
+    Gen.WriteSet.freshShallowMethods =
+      ["copy", "items", "keys", "values"] ∧
+    Gen.WriteSet.aliasMethods =
+      ["as_dict", "get", "ravel", "reshape", "squeeze", "swapaxes", "transpose", "view"] ∧
+    Gen.WriteSet.exceptionSuffixes =
+      ["Error", "Exception", "Warning", "MagpylibBadUserInput", "MagpylibMissingInput", "MagpylibInternalError", "MagpylibDeprecationWarning"] ∧
+    Gen.WriteSet.consumers =
+      ["field_wrap_BH.getBH_level1"] ∧
+    Gen.WriteSet.consumeExempt =
+      ["field_func", "field", "in_out"] ∧
+    Gen.WriteSet.argNumericParams =
+      ["observers", "field", "in_out"] := by
+  decide +kernel
+
+/-! ### meaning on an abstract heap -/
+
+variable {W : Type}
+
+theorem exec_cons (h : Heap W) (e : Ev W) (tr : List (Ev W)) : h.exec (e :: tr) = (h.step e).exec tr := rfl
+
+theorem next_le_step (h : Heap W) (e : Ev W) : h.next ≤ (h.step e).next := by
+  cases e <;> simp [Heap.step]
+
+/-- a trace whose writes go to fresh, temporary or lazy addresses does not touch any other old cell -/
+theorem exec_keeps_old_cell (h0 : Heap W) (temp lazy : Nat → Bool) (tr : List (Ev W)) :
+    ∀ (h : Heap W), h0.next ≤ h.next → WritesFresh h0 temp lazy tr →
+      ∀ a, a < h0.next → temp a = false → lazy a = false → (h.exec tr).cell a = h.cell a := by
+  induction tr with
+  | nil => intro h _ _ a _ _ _; rfl
+  | cons e tr ih =>
+    intro h hn hw a ha ht hl
+    rw [exec_cons, ih (h.step e) (Nat.le_trans hn (next_le_step h e))
+      (fun e' he' => hw e' (List.mem_cons_of_mem _ he')) a ha ht hl]
+    have he := hw e (List.mem_cons_self ..)
+    cases e with
+    | alloc v =>
+      have : a ≠ h.next := by omega
+      simp [Heap.step, this]
+    | write i b v =>
+      have hab : a ≠ b := by
+        rcases he with hb | hb | hb
+        · omega
+        · intro hab; rw [hab] at ht; simp [ht] at hb
+        · intro hab; rw [hab] at hl; simp [hl] at hb
+      simp [Heap.step, hab]
+
+/-- **semantic theorem**: if every write of an execution goes to an address allocated during the call, to one of the
+allow-listed cells that the `finally` restores, or to a lazy cell, then at exit every pre-existing cell other than the lazy
+ones holds what it held at entry (`a < h0.next`: allocated before the call) -/
+theorem writes_fresh_preserves_old_heap (h0 : Heap W) (temp lazy : Nat → Bool) (tr : List (Ev W))
+    (hw : WritesFresh h0 temp lazy tr) (a : Nat) (ha : a < h0.next) (hl : lazy a = false) :
+    (h0.restore temp (h0.exec tr)).cell a = h0.cell a := by
+  show (if temp a = true then h0.cell a else (h0.exec tr).cell a) = h0.cell a
+  by_cases ht : temp a = true
+  · rw [if_pos ht]
+  · rw [if_neg ht]
+    exact exec_keeps_old_cell h0 temp lazy tr h0 (Nat.le_refl _) hw a ha (by simpa using ht) hl
+
+/-- … and the same at EVERY exceptional exit: an exception ends the trace after any number `n` of steps, then the `finally`
+runs -/
+theorem writes_fresh_preserves_old_heap_at_any_exit (h0 : Heap W) (temp lazy : Nat → Bool) (tr : List (Ev W))
+    (hw : WritesFresh h0 temp lazy tr) (n : Nat) (a : Nat) (ha : a < h0.next) (hl : lazy a = false) :
+    (h0.restore temp (h0.exec (tr.take n))).cell a = h0.cell a :=
+  writes_fresh_preserves_old_heap h0 temp lazy (tr.take n) (fun e he => hw e (List.mem_of_mem_take he)) a ha hl
+
+/-- a table that is `Pure` turns the trusted hypothesis (the trace is one the table describes) into `WritesFresh` -/
+theorem pure_described_writesFresh (sites : List Site) (ext : List ExtCall) (notes : List String)
+    (hp : WriteSet.Pure sites ext notes = true) (h0 : Heap W) (temp lazy : Nat → Bool) (tr : List (Ev W))
+    (hd : DescribedBy sites h0 temp lazy tr) : WritesFresh h0 temp lazy tr := by
+  intro e he
+  have hde := hd e he
+  cases e with
+  | alloc v => trivial
+  | write i a v =>
+    obtain ⟨s, hs, hw, hc⟩ := hde
+    have hmem : s ∈ sites := List.mem_of_getElem? hs
+    have hok : s.ok = true := by
+      have hall : sites.all Site.ok = true := by
+        unfold WriteSet.Pure at hp
+        simp only [Bool.and_eq_true] at hp
+        exact hp.1.1
+      exact List.all_eq_true.mp hall s hmem
+    show h0.next ≤ a ∨ temp a = true ∨ lazy a = true
+    unfold Site.cls at hc
+    simp only [hw, Bool.not_true, Bool.false_eq_true, if_false] at hc
+    by_cases h1 : (s.root == Root.fresh) = true
+    · simp only [h1, if_true] at hc; exact Or.inl hc
+    · simp only [h1] at hc
+      by_cases h2 : s.tilingAllowed = true
+      · simp only [h2, if_true] at hc; exact Or.inr (Or.inl hc)
+      · simp only [h2] at hc
+        by_cases h3 : s.lazyStyleAllowed = true
+        · simp only [h3, if_true] at hc; exact Or.inr (Or.inr hc)
+        · exfalso
+          unfold Site.ok at hok
+          cases hr : s.root with
+          | fresh => simp [hr] at h1
+          | param =>
+            simp only [hr, h2, h3, Bool.or_false] at hok
+            have : s.kind = Kind.consumeDeep := by simpa using hok
+            rw [this] at hw; simp [Kind.isWrite] at hw
+          | global => simp [hr] at hok
+
+/-- **C08 on the heap, for the call path as it is in /repo now**: every execution that the regenerated table describes
+leaves every pre-existing cell — other than the lazily materialised style slots — exactly as it was, at the normal exit and
+at every exceptional exit -/
+theorem call_path_preserves_old_heap (h0 : Heap W) (temp lazy : Nat → Bool) (tr : List (Ev W))
+    (hd : DescribedBy Gen.WriteSet.sites h0 temp lazy tr) (n : Nat) (a : Nat) (ha : a < h0.next) (hl : lazy a = false) :
+    (h0.restore temp (h0.exec tr)).cell a = h0.cell a ∧
+    (h0.restore temp (h0.exec (tr.take n))).cell a = h0.cell a :=
+  have hw := pure_described_writesFresh _ _ _ call_path_writes_only_fresh.1 h0 temp lazy tr hd
+  ⟨writes_fresh_preserves_old_heap h0 temp lazy tr hw a ha hl,
+   writes_fresh_preserves_old_heap_at_any_exit h0 temp lazy tr hw n a ha hl⟩
+
+/-! non-vacuity and necessity, on a heap with three old cells (0: an object's path, 1: a caller array, 2: a style slot) -/
+
+def demoHeap : Heap Nat := { cell := fun a => if a < 3 then some (10 + a) else none, next := 3 }
+def demoTemp : Nat → Bool := fun a => a == 0
+def demoLazy : Nat → Bool := fun a => a == 2
+/-- allocate, write the new cell, pad the path (temporary), materialise the style slot, allocate again -/
+def demoTrace : List (Ev Nat) := [.alloc 7, .write 0 3 8, .write 1 0 99, .write 2 2 55, .alloc 1, .write 0 4 2]
+
+/-- the hypotheses are satisfiable by a trace that does all four kinds of things … -/
+example : WritesFresh demoHeap demoTemp demoLazy demoTrace := by
+  intro e he
+  simp only [demoTrace, List.mem_cons, List.mem_nil_iff, or_false] at he
+  rcases he with rfl | rfl | rfl | rfl | rfl | rfl <;> simp [demoHeap, demoTemp, demoLazy]
+
+/-- … the conclusion holds on it at every cut (checked by evaluation), the path cell WAS different before the `finally`, … -/
+example : ∀ n ∈ [0, 1, 2, 3, 4, 5, 6], ∀ a ∈ [0, 1],
+    ((demoHeap.restore demoTemp (demoHeap.exec (demoTrace.take n))).cell a) = demoHeap.cell a := by decide
+example : (demoHeap.exec demoTrace).cell 0 = some 99 ∧ demoHeap.cell 0 = some 10 := by decide
+
+/-- … and the hypothesis is necessary: ONE write into an old cell that is not restored (the caller's array, cell 1) is
+visible after the call — what `np.asarray` + an in-place operation, a cache attribute, `list +=` on an object's own list
+amount to -/
+theorem write_to_old_cell_is_visible :
+    (demoHeap.restore demoTemp (demoHeap.exec [.alloc 7, .write 0 1 0])).cell 1 ≠ demoHeap.cell 1 := by decide
+
+/-- without the `finally` (no restore) the temporary write is visible at an exceptional exit: the heap-level counterpart of
+`without_finally_flag_state_leaks` -/
+theorem temp_write_needs_restore : (demoHeap.exec (demoTrace.take 3)).cell 0 ≠ demoHeap.cell 0 := by decide
+
+/-- the table's `Pure` predicate rejects each seeded kind of impurity: the same table with one more site -/
+theorem pure_rejects_param_write :
+    WriteSet.Pure (Gen.WriteSet.sites ++ [⟨"field_wrap_BH.getBH_level2", 280, .attrAssign, "obj._cache", "_cache", .param, .other, false⟩])
+      Gen.WriteSet.extCalls Gen.WriteSet.notes = false ∧
+    WriteSet.Pure (Gen.WriteSet.sites ++ [⟨"class_Collection.BaseCollection._validate_getBH_inputs", 526, .augAssign, "todo", "", .param, .other, false⟩])
+      Gen.WriteSet.extCalls Gen.WriteSet.notes = false ∧
+    WriteSet.Pure (Gen.WriteSet.sites ++ [⟨"field_wrap_BH.getBH_dict_level2", 555, .consume, "getBH_level1(…)", "", .param, .other, false⟩])
+      Gen.WriteSet.extCalls Gen.WriteSet.notes = false ∧
+    WriteSet.Pure (Gen.WriteSet.sites ++ [⟨"field_wrap_BH.getBH_level2", 213, .methodCall, "src._position.resize(…)", "resize", .param, .other, false⟩])
+      Gen.WriteSet.extCalls Gen.WriteSet.notes = false ∧
+    -- an allowed NAME outside the allowed REGION is rejected as well
+    WriteSet.Pure (Gen.WriteSet.sites ++ [⟨"field_wrap_BH.getBH_level2", 416, .attrAssign, "obj._position", "_position", .param, .other, false⟩])
+      Gen.WriteSet.extCalls Gen.WriteSet.notes = false ∧
+    WriteSet.Pure Gen.WriteSet.sites (Gen.WriteSet.extCalls ++ [⟨"field_wrap_BH.getBH_level2", 300, "some_new_helper", false⟩]) Gen.WriteSet.notes = false := by
+  decide +kernel
+
+end WriteSet
 
 end MagpyVerif.C08
